@@ -360,6 +360,78 @@ theorem crash_loses_nothing_unbuffered (q : Q) (hw : q.WF) (hopen : q.segs ≠ [
   intro s hs
   simp [Seg.pend, hb s hs]
 
+theorem flatMap_updLast_sublist (f : Seg → Seg) (g h : Seg → List Block)
+    (hsub : ∀ s, (g s).Sublist (h (f s))) (hid : ∀ s, (g s).Sublist (h s)) (l : List Seg) :
+    (l.flatMap g).Sublist ((updLast f l).flatMap h) := by
+  induction l with
+  | nil => simp [updLast]
+  | cons a l ih =>
+    cases l with
+    | nil => simpa [updLast] using hsub a
+    | cons b l' =>
+      rw [updLast]
+      · simp only [List.flatMap_cons] at ih ⊢
+        exact (hid a).append ih
+      · simp
+
+/-- **A crash that tears a flush loses no flushed block.** Whatever part of the interrupted
+write reached the file, every block that had been flushed and not yet advanced past is still
+pending after the restart, in the same order (blocks delivered before may be pending again,
+and the torn block itself if all of it arrived). -/
+theorem crashTorn_keeps_flushed (q : Q) (hw : q.WF) (hopen : q.segs ≠ []) (b : Block) (k : Nat) :
+    (q.segs.flatMap fun s => s.blocks.drop s.pos).Sublist (q.crashTorn b k).pending := by
+  unfold Q.crashTorn
+  have hne : q.segs.isEmpty = false := by
+    cases h : q.segs with
+    | nil => exact absurd h hopen
+    | cons a l => rfl
+  simp only [hne, Bool.false_eq_true, if_false]
+  rw [open_spec _ rfl]
+  · simp only
+    -- segment by segment: the tail may have been reset to its first record and extended
+    have h1 : (q.segs.flatMap fun s => s.blocks.drop s.pos)
+        = (q.segs.map fun (s : Seg) => { s with buf := [] }).flatMap Seg.pend := by
+      simp only [List.flatMap_map]
+      apply List.flatMap_congr
+      intro s _
+      simp [Seg.pend]
+    rw [h1]
+    apply flatMap_updLast_sublist
+    · intro s
+      split
+      · simp [Seg.pend]
+      · simp only [Seg.pend, List.drop_zero]
+        exact ((List.drop_sublist _ _).append (List.Sublist.refl _)).trans
+          (by simp [List.append_assoc])
+    · intro s; exact List.Sublist.refl _
+  · intro s hs
+    -- what is on disk has no buffers and valid offsets
+    have hall : ∀ s ∈ (q.segs.map fun (s : Seg) => { s with buf := [] }), s.WF ∧ s.buf = [] := by
+      intro s hs
+      simp only [List.mem_map] at hs
+      obtain ⟨s0, hs0, rfl⟩ := hs
+      exact ⟨hw.1 s0 hs0, rfl⟩
+    simp only at hs
+    generalize (q.segs.map fun (s : Seg) => { s with buf := [] }) = disk at hs hall
+    induction disk with
+    | nil => simp [updLast] at hs
+    | cons a l ih =>
+      cases l with
+      | nil =>
+        simp only [updLast, List.mem_singleton] at hs
+        subst hs
+        have ha := hall a (by simp)
+        split
+        · exact ⟨ha.1, ha.2⟩
+        · exact ⟨by simp [Seg.WF], ha.2⟩
+      | cons c l' =>
+        rw [updLast] at hs
+        · simp only [List.mem_cons] at hs
+          rcases hs with rfl | hs
+          · exact hall _ (by simp)
+          · exact ih (by simpa using hs) (fun x hx => hall x (List.mem_cons_of_mem _ hx))
+        · simp
+
 /-- **An accepted block can be lost by a crash** (the property is false of the model and of
 the code alike — open known finding C04-buffered-append-lost-at-crash): `Append` returns
 success for a block it only put into the tail's write buffer (the path taken above ten
